@@ -70,6 +70,11 @@ fn reopen_copy_matches(case: &Case, ex: &Exec, src: &Path, scratch: &Path, allow
     let t = cfg
         .open()
         .map_err(|e| format!("{what}: reopening a copy of the directory failed: {e:?}"))?;
+    if crate::crash::reclaim_check_on() {
+        // C20: whatever partial files the failed call left behind, one reopen reclaims them
+        crate::audit::reclamation_of(scratch, &t, &format!("[C20] right after reopening the directory left by {what}"))
+            .map_err(|e| format!("[C20] {e}"))?;
+    }
     let mut got = vec![];
     for k in &ex.keys {
         let e = t
@@ -82,8 +87,20 @@ fn reopen_copy_matches(case: &Case, ex: &Exec, src: &Path, scratch: &Path, allow
         });
     }
     drop(t);
+    match match_models(ex, &got, allowed) {
+        Ok(_) => Ok(()),
+        Err(errs) => Err(format!(
+            "{what}: reopening a copy of the directory yields neither the state before nor after the call ({errs})"
+        )),
+    }
+}
+
+type Got = Vec<Option<(Vec<u8>, SeqNo)>>;
+
+/// index of the first allowed model whose durable content equals what was read back
+fn match_models(ex: &Exec, got: &Got, allowed: &[&Model]) -> Result<usize, String> {
     let mut errs = vec![];
-    for m in allowed {
+    for (mi, m) in allowed.iter().enumerate() {
         let exp = durable_expect(ex, m);
         let mut ok = true;
         for ((k, e), g) in exp.iter().zip(got.iter()) {
@@ -106,13 +123,51 @@ fn reopen_copy_matches(case: &Case, ex: &Exec, src: &Path, scratch: &Path, allow
             }
         }
         if ok {
-            return Ok(());
+            return Ok(mi);
         }
     }
-    Err(format!(
-        "{what}: reopening a copy of the directory yields neither the state before nor after the call ({})",
-        errs.join(" | ")
-    ))
+    Err(errs.join(" | "))
+}
+
+/// The same process drops the tree and opens the directory again (every Drop handler runs, unlike in
+/// the copy-based check). The recovered content must be one of the allowed durable states; the
+/// model continues from the one that matched.
+fn reopen_in_place_fn(ex: &mut Exec, allowed: &[&Model], what: &str) -> Result<(), String> {
+    ex.snaps.clear();
+    ex.iters.clear();
+    ex.tree = None;
+    ex.open()
+        .map_err(|e| format!("{what}: dropping the tree and reopening the directory in place failed: {e}"))?;
+    let t = ex.tree().clone();
+    let mut got: Got = vec![];
+    for k in &ex.keys {
+        let e = t
+            .get_internal_entry(k, SeqNo::MAX)
+            .map_err(|e| format!("{what}: get_internal_entry after reopening in place: {e:?}"))?;
+        let v = t.get(k, SeqNo::MAX).map_err(|e| format!("{what}: get after reopening in place: {e:?}"))?;
+        got.push(match (v, e) {
+            (Some(v), Some(e)) => Some((v.to_vec(), e.key.seqno)),
+            _ => None,
+        });
+    }
+    drop(t);
+    let mi = match_models(ex, &got, allowed).map_err(|errs| {
+        format!("{what}: after dropping the tree and reopening it in place the content is neither the state before nor after the call ({errs})")
+    })?;
+    // the failed call may have drawn sequence numbers it never published; after a reopen a caller
+    // positions its counters above everything that is stored (the documented restart rule)
+    let next = ex.tree().get_highest_seqno().map_or(0, |h| h + 1);
+    ex.seqno.fetch_max(next);
+    ex.visible.fetch_max(next);
+    let mut m = allowed[mi].clone();
+    m.reopen(ex.visible.get());
+    ex.model = m;
+    ex.last_wm = 0;
+    ex.installs_at_open = ex.installs;
+    ex.layout_changed = true;
+    ex.reopen_count += 1;
+    crate::audit::after_op(ex).map_err(|w| format!("{what}: after dropping the tree and reopening it in place: {w}"))?;
+    Ok(())
 }
 
 pub fn run(case: &Case, thorough: bool) -> Result<Stats, Failure> {
@@ -177,15 +232,18 @@ fn run_inner(case: &Case, root: &Path, thorough: bool) -> Result<Stats, Failure>
         } else {
             &[libc::EIO]
         };
-        for &errno in errnos {
+        // variant false: retry the call on the live tree; variant true: drop the tree after the failed
+        // call and reopen the directory in place (Drop handlers run, unlike in the copy-based check)
+        for (&errno, reopen_in_place) in errnos.iter().flat_map(|e| [(e, false), (e, true)]) {
             run_no += 1;
             let d = root.join(format!("f{run_no}"));
             let what = format!(
-                "target {target:?} with call #{k} ({name}) failing with {}",
-                if errno == libc::ENOSPC { "ENOSPC" } else { "EIO" }
+                "target {target:?} with call #{k} ({name}) failing with {}{}",
+                if errno == libc::ENOSPC { "ENOSPC" } else { "EIO" },
+                if reopen_in_place { " [then drop + reopen in place]" } else { "" }
             );
             let r = std::panic::catch_unwind(std::panic::AssertUnwindSafe(|| {
-                one_fault(case, &d, root, &target, k, errno, n, &what, &mut stats, first_create.map(|x| x as u64), &post_clean)
+                one_fault(case, &d, root, &target, k, errno, n, &what, &mut stats, first_create.map(|x| x as u64), &post_clean, reopen_in_place)
             }));
             let _ = crate::shim::end();
             crate::util::rm_rf(&d);
@@ -218,6 +276,7 @@ fn one_fault(
     stats: &mut Stats,
     first_create: Option<u64>,
     post_clean: &Model,
+    reopen_in_place: bool,
 ) -> Result<(), String> {
     let mut ex = prefix(case, d).map_err(|w| format!("HARNESS: prefix not deterministic: {w}"))?;
     ex.max_snaps = 8;
@@ -288,6 +347,16 @@ fn one_fault(
             let mut allowed: Vec<&Model> = vec![&pre_model, &after_model, &cur, post_clean];
             allowed.extend(mids.iter());
             reopen_copy_matches(case, &ex, d, &scratch, &allowed, &format!("{what} (after the failed call)"))?;
+            if reopen_in_place {
+                reopen_in_place_fn(&mut ex, &allowed, &format!("{what} (after the failed call)"))?;
+                stats.bump("fault.reopened_in_place");
+                ex.apply(&Op::Insert { k: 0, len: 0 })?;
+                ex.apply(&Op::FlushActive { wm: 0 })
+                    .map_err(|w| format!("{what}: the reopened tree is not usable: {w}"))?;
+                crate::audit::after_op(&mut ex).map_err(|w| format!("{what}: after a follow-up write+flush on the reopened tree: {w}"))?;
+                crate::util::rm_rf(&scratch);
+                return Ok(());
+            }
             // retry
             ex.apply(target).map_err(|w| format!("{what}: retrying the call after the fault cleared failed: {w}"))?;
             crate::audit::after_op(&mut ex).map_err(|w| format!("{what}: after the successful retry: {w}"))?;
@@ -300,6 +369,10 @@ fn one_fault(
             crate::audit::after_op(&mut ex).map_err(|w| format!("{what}: the call returned Ok but reads are wrong: {w}"))?;
             let m_now = ex.model.clone();
             reopen_copy_matches(case, &ex, d, &scratch, &[&m_now], &format!("{what} (call returned Ok)"))?;
+            if reopen_in_place {
+                reopen_in_place_fn(&mut ex, &[&m_now], &format!("{what} (call returned Ok)"))?;
+                stats.bump("fault.reopened_in_place");
+            }
         }
     }
     // the tree stays usable
